@@ -398,9 +398,10 @@ class SqlError(Exception):
     pass
 
 
-KEYWORDS = {"case", "when", "then", "else", "end", "true", "OR", "AND", "in", "NULL", "TRUE", "FALSE", "ARRAY", "json_build_object"}
+# SQL keywords are case-insensitive: they are read in any case and handled in upper case
+KEYWORDS = {"CASE", "WHEN", "THEN", "ELSE", "END", "TRUE", "FALSE", "NULL", "OR", "AND", "IN", "NOT", "ARRAY"}
 TYPE_WORDS = {"integer": "int", "bigint": "uint", "double precision": "double", "text": "string", "boolean": "bool", "bytea": "bytes", "timestamp": "timestamp", "interval": "duration", "json": "json", "bool": "bool!"}
-SQL_BINOPS = {"+": "Add", "-": "Sub", "*": "Mul", "/": "Div", "%": "Mod", "<": "Lt", "<=": "Le", ">": "Gt", ">=": "Ge", "=": "Eq", "<>": "Ne", "in": "In", "OR": "Or", "AND": "And"}
+SQL_BINOPS = {"+": "Add", "-": "Sub", "*": "Mul", "/": "Div", "%": "Mod", "<": "Lt", "<=": "Le", ">": "Gt", ">=": "Ge", "=": "Eq", "<>": "Ne", "!=": "Ne", "IN": "In", "OR": "Or", "AND": "And"}
 CAST_OF = {"int": "int", "uint": "uint", "float": "double", "double": "double", "string": "string", "bool": "bool", "bytes": "bytes", "timestamp": "timestamp", "duration": "duration"}
 
 
@@ -469,7 +470,7 @@ def sql_lex(parts):
             elif p.startswith("->>", i):
                 toks.append(("op", "->>"))
                 i += 3
-            elif p[i:i + 2] in ("->", "::", "<=", ">=", "<>"):
+            elif p[i:i + 2] in ("->", "::", "<=", ">=", "<>", "!="):
                 toks.append(("op", p[i:i + 2]))
                 i += 2
             elif c in "()[],":
@@ -489,7 +490,12 @@ def sql_lex(parts):
                 while j < n and (p[j].isalnum() or p[j] == "_"):
                     j += 1
                 w = p[i:j]
-                toks.append(("kw", w) if w in KEYWORDS or w in ("double", "precision") or w in TYPE_WORDS else ("ident", w))
+                if w.upper() in KEYWORDS:
+                    toks.append(("kw", w.upper()))
+                elif w.lower() == "json_build_object" or w.lower() in ("double", "precision") or w.lower() in TYPE_WORDS:
+                    toks.append(("kw", w.lower()))
+                else:
+                    toks.append(("ident", w))
                 i = j
             else:
                 raise SqlError(f"unexpected character {c!r}")
@@ -528,12 +534,12 @@ class SqlParser:
 
     def unary(self):
         tok = self.peek()
-        if tok[0] == "op" and tok[1] in ("!", "-"):
+        if (tok[0] == "op" and tok[1] in ("!", "-")) or tok == ("kw", "NOT"):
             n = 0
             while self.peek() == tok:
                 self.take()
                 n += 1
-            return TG.N(k="not" if tok[1] == "!" else "neg", n=n, x=self.postfix())
+            return TG.N(k="neg" if tok[1] == "-" else "not", n=n, x=self.postfix())
         return self.postfix()
 
     def postfix(self):
@@ -616,21 +622,21 @@ class SqlParser:
             e = self.expr()
             self.take(")")
             return TG.N(k="paren", x=e)
-        if tok == ("kw", "case"):
+        if tok == ("kw", "CASE"):
             self.take()
             self.take("(")
             c = self.expr()
             self.take(")")
-            for w in (("op", "::"), ("kw", "bool"), ("kw", "when"), ("kw", "true"), ("kw", "then")):
+            for w in (("op", "::"), ("kw", "bool"), ("kw", "WHEN"), ("kw", "TRUE"), ("kw", "THEN")):
                 self.take(*w)
             self.take("(")
             x = self.expr()
             self.take(")")
-            self.take("kw", "else")
+            self.take("kw", "ELSE")
             self.take("(")
             y = self.expr()
             self.take(")")
-            self.take("kw", "end")
+            self.take("kw", "END")
             return TG.N(k="cond", c=c, x=x, y=y)
         if tok == ("kw", "ARRAY"):
             self.take()
